@@ -8,7 +8,7 @@
 use std::{
     fmt,
     hash::Hash,
-    ops,
+    mem, ops,
     sync::{Arc, PoisonError, TryLockError, TryLockResult, Weak},
 };
 
@@ -429,8 +429,12 @@ where
 impl<T, L: Lock> Drop for SharedObservable<T, L> {
     fn drop(&mut self) {
         // Only close the state if there are no other clones of this
-        // `SharedObservable`.
-        if Arc::strong_count(&self._num_clones) == 1 {
+        // `SharedObservable`. Give up our reference to the clone counter first:
+        // `Arc::into_inner` tells exactly one of several clones that are being
+        // dropped concurrently that it was the last one, and makes a concurrent
+        // `WeakObservable::upgrade` either win (then we are not last) or fail.
+        let num_clones = mem::replace(&mut self._num_clones, Arc::new(()));
+        if Arc::into_inner(num_clones).is_some() {
             #[cfg(eyeball_verif)]
             crate::verif::point("drop:decided_last");
             // If there are no other clones, obtaining a read lock can't fail.
